@@ -4,7 +4,7 @@ each with its own data, sizes, limits and transfer syntax, some aborting mid-way
 import threading
 import time
 
-from . import common, s3
+from . import common, s2, s3
 
 IMG = '1.2.840.10008.5.1.4.1.1.7'
 
@@ -194,6 +194,80 @@ def ids_soak(threads, draws):
     return dups, off
 
 
+def interleaved_case(case):
+    """the deterministic transport with interleaved stepping: K real providers in ONE process, each playing its own
+    conversation, their loop passes interleaved by a seeded schedule.  Each provider must do exactly what it does when it
+    runs alone (the Lean theorem `noninterference` says so for the product of the loop models; state shared between
+    provider objects - class attributes, module globals - would break it here)."""
+    from . import c03, scen
+    convs = c03.conversations()
+    names = case['convs']
+    rnd = common.rng('c20-il-%d' % case['seed'])
+
+    def script(conv):
+        role, opts, turns = conv
+        steps = []
+        for t in turns:
+            if t[0] == 'peer':
+                steps += [('feed', s_) for s_ in t[1]]
+            elif t[0] == 'eof':
+                steps.append(('eof',))
+            else:
+                steps.append(('user', t[1]))
+        return steps
+
+    def new_runner(conv):
+        role, opts, turns = conv
+        react = (lambda x: []) if opts.get('silent') else scen.default_acceptor_user(reject=opts.get('reject'))
+        return scen.Runner(role, react)
+
+    def apply(r, st):
+        if st[0] == 'feed':
+            if r.sock is not None and not r.sock.closed:
+                r.feed(st[1])
+        elif st[0] == 'eof':
+            if r.sock is not None and not r.sock.closed:
+                r.feed('EOF')
+        else:
+            r.user(c03.user_prim(st[1]))
+    # reference: each conversation alone
+    solo = []
+    for n in names:
+        r = new_runner(convs[n])
+        r.settle()
+        for st in script(convs[n]):
+            apply(r, st)
+            r.settle()
+        solo.append(c03.observable(r.summary()))
+    # interleaved: one pass of one provider at a time; a provider gets its next input when it is quiescent
+    rs = [new_runner(convs[n]) for n in names]
+    todo = [script(convs[n]) for n in names]
+    live = list(range(len(rs)))
+    guard = 0
+    while live and guard < 400000:
+        guard += 1
+        i = rnd.choice(live)
+        r = rs[i]
+        if r.tr.crash or r.tr.blocked:
+            live.remove(i)
+            continue
+        if not r.step():
+            if todo[i]:
+                apply(r, todo[i].pop(0))
+            else:
+                live.remove(i)
+    for i, n in enumerate(names):
+        rs[i].settle()
+        got = c03.observable(rs[i].summary())
+        if got != solo[i]:
+            k = next((j for j, (a, b) in enumerate(zip(got, solo[i])) if a != b), 0)
+            return ('provider %d of %d (conversation %s) behaves differently when its passes are interleaved with the other '
+                    'providers\' passes: %s differs: alone %r, interleaved %r'
+                    % (i + 1, len(names), n, ['indications', 'PDUs sent', 'state', 'closed', 'socket', 'crash', 'blocked'][k],
+                       str(solo[i][k])[:160], str(got[k])[:160]))
+    return None
+
+
 def dead_peer_case(case):
     """one entity, several requests at once, one of them to a peer that accepts the connection and never answers: the
     healthy associations must not wait for the dead one"""
@@ -247,6 +321,11 @@ def dead_peer_case(case):
 
 
 def replay(case):
+    if case.get('interleaved'):
+        try:
+            return interleaved_case(case)
+        finally:
+            s2.uninstall()
     if case.get('dead_peer'):
         return dead_peer_case(case)
     if case.get('ids_soak'):
@@ -286,6 +365,21 @@ def run(chk):
         chk.violation('C20:ids:repeat', 'message ids repeat within a thread: ' + '; '.join(dups[:3]), soak)
     elif off:
         chk.broke('correspondence: _new_msg_id vs Dicom.C20.newMsgId', '; '.join(off[:3]), soak)
+    # several providers in one process under the deterministic transport, their passes interleaved
+    from . import c03
+    allnames = sorted(c03.conversations())
+    for k in range(12 if tier == 'quick' else 300):
+        ic = {'interleaved': True, 'seed': k, 'convs': [allnames[(k * 5 + j * 3) % len(allnames)] for j in range(2 + k % 4)]}
+        try:
+            r = interleaved_case(ic)
+        except Exception as e:  # pylint: disable=broad-except
+            common.raise_for(common.describe_exc(e))
+        finally:
+            s2.uninstall()                   # the rest of this check runs on real sockets, real select and real time
+        chk.case(repr(ic), True, {'interleaved_providers': len(ic['convs']), 'conversations': ic['convs']} if k < 3 else None)
+        chk.count('interleaved:%d-providers' % len(ic['convs']))
+        if r:
+            chk.violation('C20:interleaved', r, ic)
     # one entity requesting several associations at once, one of them to a dead peer
     dp = {'dead_peer': True, 'timeout': 6, 'healthy': 3}
     r = dead_peer_case(dp)
